@@ -112,7 +112,7 @@ PROPS["C04"] = {
     "trusted_base": CACHE_TB,
     "assumptions": [],
     "technique": "Lean 4 proof: same loop invariant => error with exactly the unresolved names in request order (with repetitions), no Apply; nil OCI guard; unresolved iff no declarative winner; before/after comparison of the real OCI spec",
-    "level_text": "Kernel-checked theorems for every request list: if some name does not resolve, the outcome is `unresolved (req.filter unresolved)` - request order, repetitions kept - and no Apply is performed; a nil OCI spec returns all names; a name is unresolved iff the precedence rule gives no winner. Tied to the code by mixed requests (resolvable, unknown, syntactically invalid, shadowed-only, conflict-removed, repeated) on populated OCI specs with a JSON deep comparison of the spec before and after, and nil-spec calls; requests of 9-14 names most of which do not resolve; the same failing request twice on one cache.",
+    "level_text": "Kernel-checked theorems for every request list: if some name does not resolve, the outcome is `unresolved (req.filter unresolved)` - request order, repetitions kept - and no Apply is performed; a nil OCI spec returns all names; a name is unresolved iff the precedence rule gives no winner. Tied to the code by mixed requests (resolvable, unknown, syntactically invalid, shadowed-only, conflict-removed, repeated) on populated OCI specs with a JSON deep comparison of the spec before and after, and nil-spec calls; requests of 9-14 names most of which do not resolve; the same failing request twice on one cache. Further theorems: a name without `/` or `=` (the empty name, a blank) never resolves in a refreshed cache; with a miss the outcome is neither an Apply nor an empty list; every miss is named exactly as often as it was requested. Requests whose only miss is the empty or a blank name, and conventional names no Spec defines (`=all`, `=*`), are part of the stream.",
     "level_note": "Trusted: Lean kernel; that returning before Apply leaves the caller's object untouched is observed, not proved (Go aliasing).",
 }
 
@@ -154,7 +154,7 @@ PROPS["C17"] = {
                      "yaml/json text codecs (documents are generated at the value level and rendered)"],
     "assumptions": ["documents have no duplicate member names", "I9: byte entry points may add the annotation verdict, identically for both encodings"],
     "technique": "translation validation: Lean draft-07 evaluator over the regenerated schema term vs gojsonschema through every entry point x encoding x schema choice; Lean theorems for the glue (none/nil accept, entry points agree on well-formed annotations, encoding independence)",
-    "level_text": "The schema files are regenerated into a Lean Schema term on every run and evaluated by a Lean definition of draft-07 (type, properties, required, items, patternProperties, minimum, maximum on exact decimals). Documents generated from the Spec shape - valid ones, and one violation of each keyword at each level (wrong member types incl. scalars, missing required members, extra members, numbers at and beyond every bound incl. +-2^63 and 2^32, fractions, 7.0) - are pushed through ValidateData (JSON and YAML bytes), ValidateFile (.json and .yaml), ValidateReader and ReadAndValidate for the builtin schema, an externally loaded copy, the none schema and a nil schema; every verdict must equal the Lean verdict, JSON and YAML bytes must agree, none/nil must accept; the same JSON document in other spellings (escaped solidus, \\u escapes incl. surrogate pairs, indentation); the accessor/constructor forms (Set/Get, WithSchema, WithNamedSchema, WithDefaultSchema, ValidateType); and the very first use of the builtin schema by 32 goroutines at once in fresh processes. Kernel-checked theorems cover the glue: a nil or none schema accepts every document, all entry points return the engine verdict on documents whose annotations are well-formed, and the byte entry point is encoding-independent.",
+    "level_text": "The schema files are regenerated into a Lean Schema term on every run and evaluated by a Lean definition of draft-07 (type, properties, required, items, patternProperties, minimum, maximum on exact decimals). Documents generated from the Spec shape - valid ones, and one violation of each keyword at each level (wrong member types incl. scalars, missing required members, extra members, numbers at and beyond every bound incl. +-2^63 and 2^32, fractions, 7.0) - are pushed through ValidateData (JSON and YAML bytes), ValidateFile (.json and .yaml), ValidateReader and ReadAndValidate for the builtin schema, an externally loaded copy, the none schema and a nil schema; every verdict must equal the Lean verdict, JSON and YAML bytes must agree, none/nil must accept; the same JSON document in other spellings (escaped solidus, \\u escapes incl. surrogate pairs, indentation); the accessor/constructor forms (Set/Get, WithSchema, WithNamedSchema, WithDefaultSchema, ValidateType); and the very first use of the builtin schema by 32 goroutines at once in fresh processes. Kernel-checked theorems cover the glue: a nil or none schema accepts every document, all entry points return the engine verdict on documents whose annotations are well-formed, and the byte entry point is encoding-independent. The regenerated fact F12 (which exported methods of *Schema reach the content check / the engine, by following calls in schema/schema.go) ties the model's table of entry points to the code (F12_content_check_where_the_code_has_it). Documents with unconstrained members holding numbers beyond float64 and documents beyond 1 MiB go through every entry point.",
     "level_note": "Partial: engine conformance is tested, not proved. Trusted: Lean kernel for the glue theorems; factgen; renderers.",
 }
 
@@ -167,7 +167,7 @@ PROPS["C18"] = {
                      "draft-07 semantics of CdiModel/Schema.lean on the regenerated schema term (F8); gojsonschema conformance via C17"],
     "assumptions": ["hook timeouts within 0..2^32-1 (property statement); integer fields within their Go types"],
     "technique": "Lean 4 proof over the regenerated schema term: every library-valid Spec's JSON encoding validates; correspondence: library-valid typed Specs with numeric extremes through schema.Validate, the written .json/.yaml files through ValidateFile, ReadSpec/WriteSpec with the schema installed as validator",
-    "level_text": "Kernel-checked theorem: for every Spec accepted by the validation model (C05) whose integer fields are within their Go types and whose hook timeouts are within 0..2^32-1, the JSON value encoding/json produces validates against the builtin schema term regenerated from schema.json/defs.json. Tied to the code by generating library-valid typed Specs over all optional fields with the extremes of every integer field, validating them with schema.Validate, writing them with Cache.WriteSpec as .json and .yaml and validating the files with ValidateFile, and reading/writing them with the builtin schema installed through cdi.SetSpecValidator.",
+    "level_text": "Kernel-checked theorem: for every Spec accepted by the validation model (C05) whose integer fields are within their Go types and whose hook timeouts are within 0..2^32-1, the JSON value encoding/json produces validates against the builtin schema term regenerated from schema.json/defs.json. Tied to the code by generating library-valid typed Specs over all optional fields with the extremes of every integer field, validating them with schema.Validate, writing them with Cache.WriteSpec as .json and .yaml and validating the files with ValidateFile, and reading/writing them with the builtin schema installed through cdi.SetSpecValidator. `admitWith` models newSpec with a Spec validator installed; C18_validator_changes_nothing proves that with the builtin schema as validator admission equals admission without one. The stream also validates the library's own JSON/YAML text through the byte entry point (strings with DEL, C1 controls, U+FFFE), annotation keys in every spelling the library takes, and in-memory Specs from eight goroutines at once.",
     "level_note": "Trusted: Lean kernel; Encode model; factgen. That the real validator implements the Lean semantics is C17's correspondence.",
 }
 
